@@ -410,7 +410,7 @@ func main() {
 	}
 	r.Set("bound_completed_S3", minBound)
 	r.Set("bound_completed_S6", completed["S6/cap0"])
-	r.Set("rule", "per scenario variant (S1,S2,S4,S3c, S5c and S5d x each of the eleven lookups, S5a,S5b,S7 x result-channel capacity 0/1): every Mazurkiewicz trace of the synchronisation operations (sleep sets, unbounded) plus every schedule with <= bound-1 deviations without reduction; S3 (shared LookupOptions, racy by design) and S6 (BQL INSERT || 2-clause SELECT, 25 threads): every schedule with <= bound deviations, no reduction")
+	r.Set("rule", "per scenario variant (S1,S2,S4,S4b,S3c, S5c and S5d x each of the eleven lookups, S5a,S5b,S7 x result-channel capacity 0/1): every Mazurkiewicz trace of the synchronisation operations (sleep sets, unbounded) plus every schedule with <= bound-1 deviations without reduction; S3 (shared LookupOptions, racy by design) and S6 (BQL INSERT || 2-clause SELECT, 25 threads): every schedule with <= bound deviations, no reduction")
 	if b, err := os.ReadFile(filepath.Join(common.Root(), "work/instr/c07/inventory.json")); err == nil {
 		var inv map[string]interface{}
 		if json.Unmarshal(b, &inv) == nil {
